@@ -244,6 +244,10 @@ class LoopMixin:
         for key, how in written.items():
             s0.heap.havoc(key)
             if how != "whole":
+                # remembered so that an enclosing loop's write-set analysis can see through this havoc
+                hm = dict(s0.ghost.get("hvmap", {}))
+                hm[s0.heap.comps[key].get_id()] = (entry_heap.get(key), list(how))
+                s0.ghost["hvmap"] = hm
                 # only `how` (loop-invariant locations) and objects allocated by earlier iterations
                 # were written: every other object that existed at loop entry keeps its value
                 r = z3.Int("r!lf")
@@ -403,6 +407,18 @@ class LoopMixin:
                 locs = []
                 ok = t is not None and b is not None
                 while ok and not t.eq(b):
+                    hm = s2.ghost.get("hvmap", {})
+                    if t.get_id() in hm:
+                        # an inner loop wrote only these loop-invariant locations (and objects it allocated)
+                        inner_entry, inner_locs = hm[t.get_id()]
+                        for ix in inner_locs:
+                            stb = stable_term(ix)
+                            if stb is not None:
+                                locs.append(stb)
+                            elif self.feasible(s2, ix < a_dry):
+                                ok = False
+                        t = inner_entry
+                        continue
                     if z3.is_store(t):
                         ix = t.arg(1)
                         stb = stable_term(ix)
